@@ -28,6 +28,8 @@ CONSTANTS MaxParts,         \* parts per segment in the bounded model
 \* deviation. The defaults in the cfg files describe the current tree:
 CONSTANTS
     DevTornTailFailsGet,     \* C27-F1 (known): /get fails when the window reaches a half-written part
+    DevRewritesFailedPart,   \* seeded C27-s7: after a failed part flush the part stays current and the
+                             \* error-triggered close writes it again behind the torn bytes
     DevTimescaleZeroExits    \* C27-F2 = C28-F1 (fixed in 3adcf73): a zero-filled header remainder
                              \* (mvhd timescale 0) made the process exit
 
@@ -49,15 +51,16 @@ VARIABLES
     cls,       \* description of the crash point (meaningful when crashed)
     partEnd,   \* partEnd[i] = instant at which the last sample of part i ends (parts started so far)
     endDTS,    \* the segment's running maximum of sample ends (formatFMP4Segment.endDTS)
-    durHdr     \* the duration written by the patch (0 = not written)
-vars == <<pc, disk, flight, nunits, patch, crashed, cls, partEnd, endDTS, durHdr>>
+    durHdr,    \* the duration written by the patch (0 = not written)
+    after      \* what followed a failed write: "none" | "exit" | "close_lifted" | "close_limited"
+vars == <<pc, disk, flight, nunits, patch, crashed, cls, partEnd, endDTS, durHdr, after>>
 
 NoClass == [k |-> 0, z |-> 0, torn |-> FALSE, mode |-> "cut", stage |-> "none"]
 
 Init ==
     /\ pc = "new" /\ disk = <<>> /\ flight = <<>> /\ nunits = 0 /\ patch = 0
     /\ crashed = FALSE /\ cls = NoClass
-    /\ partEnd = <<>> /\ endDTS = 0 /\ durHdr = 0
+    /\ partEnd = <<>> /\ endDTS = 0 /\ durHdr = 0 /\ after = "none"
 
 \* the header is written together with the first part; a part is handed to the disk when it is
 \* closed, the segment has by then seen all its samples (write() updates endDTS sample by sample)
@@ -66,27 +69,27 @@ StartUnit ==
     /\ flight' = UnitCells(nunits) /\ pc' = "writing"
     /\ IF nunits = 0 THEN UNCHANGED <<partEnd, endDTS>>
        ELSE \E e \in PartEnds : partEnd' = Append(partEnd, e) /\ endDTS' = Max(endDTS, e)
-    /\ UNCHANGED <<disk, nunits, patch, crashed, cls, durHdr>>
+    /\ UNCHANGED <<disk, nunits, patch, crashed, cls, durHdr, after>>
 
 WriteCell ==
     /\ ~crashed /\ pc = "writing" /\ flight # <<>>
     /\ disk' = Append(disk, Head(flight)) /\ flight' = Tail(flight)
-    /\ UNCHANGED <<pc, nunits, patch, crashed, cls, partEnd, endDTS, durHdr>>
+    /\ UNCHANGED <<pc, nunits, patch, crashed, cls, partEnd, endDTS, durHdr, after>>
 
 FinishUnit ==
     /\ ~crashed /\ pc = "writing" /\ flight = <<>>
     /\ pc' = "idle" /\ nunits' = nunits + 1
-    /\ UNCHANGED <<disk, flight, patch, crashed, cls, partEnd, endDTS, durHdr>>
+    /\ UNCHANGED <<disk, flight, patch, crashed, cls, partEnd, endDTS, durHdr, after>>
 
 \* the recorder patches the duration only when it closes a segment that has at least one part
 PatchDuration ==
     /\ ~crashed /\ pc = "idle" /\ nunits >= 2
     /\ patch' = 4 /\ pc' = "patched" /\ durHdr' = endDTS
-    /\ UNCHANGED <<disk, flight, nunits, crashed, cls, partEnd, endDTS>>
+    /\ UNCHANGED <<disk, flight, nunits, crashed, cls, partEnd, endDTS, after>>
 
 Close ==
     /\ ~crashed /\ pc = "patched" /\ pc' = "closed"
-    /\ UNCHANGED <<disk, flight, nunits, patch, crashed, cls, partEnd, endDTS, durHdr>>
+    /\ UNCHANGED <<disk, flight, nunits, patch, crashed, cls, partEnd, endDTS, durHdr, after>>
 
 Filler(mode, cells) ==
     IF mode = "cut" THEN <<>> ELSE [i \in 1..Len(cells) |-> Cell(cells[i].u, cells[i].z, mode)]
@@ -102,7 +105,7 @@ CrashWriting(mode, torn) ==
            tornfill == IF torn /\ mode # "cut" THEN <<Cell(c.u, c.z, mode)>> ELSE <<>>
        IN /\ disk' = disk \o first \o tornfill \o Filler(mode, rest)
           /\ cls' = [k |-> nunits, z |-> c.z, torn |-> torn, mode |-> mode, stage |-> "rec"]
-    /\ UNCHANGED <<pc, flight, nunits, patch, partEnd, endDTS, durHdr>>
+    /\ UNCHANGED <<pc, flight, nunits, patch, partEnd, endDTS, durHdr, after>>
 
 \* crash between writes (nothing in flight); an allocated-but-unwritten tail may still follow
 CrashIdle(mode) ==
@@ -111,16 +114,43 @@ CrashIdle(mode) ==
     /\ disk' = disk \o (IF mode = "cut" THEN <<>> ELSE <<Cell(nunits, 0, mode)>>)
     /\ cls' = [k |-> nunits, z |-> 0, torn |-> FALSE, mode |-> mode,
                stage |-> IF pc = "patched" THEN "patched" ELSE IF pc = "new" THEN "new" ELSE "rec"]
-    /\ UNCHANGED <<pc, flight, nunits, patch, partEnd, endDTS, durHdr>>
+    /\ UNCHANGED <<pc, flight, nunits, patch, partEnd, endDTS, durHdr, after>>
 
 \* crash inside the in-place duration patch: j of the 4 bytes carry the new value
 CrashPatch(j) ==
     /\ ~crashed /\ pc = "idle" /\ nunits >= 2 /\ j \in 1..3
     /\ crashed' = TRUE /\ patch' = j
     /\ cls' = [k |-> nunits, z |-> 0, torn |-> TRUE, mode |-> "cut", stage |-> "patchtorn"]
-    /\ UNCHANGED <<pc, disk, flight, nunits, partEnd, endDTS, durHdr>>
+    /\ UNCHANGED <<pc, disk, flight, nunits, partEnd, endDTS, durHdr, after>>
+
+\* ---- write faults: the write of a part fails after some bytes (short write: disk full, quota,
+\* file size limit). Either the process stops there, or the recorder handles the error: the
+\* instance closes the segment (duration patch + close) - with the limit lifted before the close or
+\* still in place - and recording goes on in another file.
+FailWrite(torn) ==
+    /\ ~crashed /\ pc = "writing" /\ flight # <<>> /\ nunits >= 1
+    /\ LET c == Head(flight) IN
+         /\ disk' = disk \o (IF torn THEN <<Cell(c.u, c.z, "torn")>> ELSE <<>>)
+         /\ cls' = [k |-> nunits, z |-> c.z, torn |-> torn, mode |-> "cut", stage |-> "fault"]
+    /\ flight' = <<>> /\ pc' = "failed"
+    /\ UNCHANGED <<nunits, patch, crashed, partEnd, endDTS, durHdr, after>>
+FaultExit ==
+    /\ ~crashed /\ pc = "failed" /\ crashed' = TRUE /\ after' = "exit"
+    /\ UNCHANGED <<pc, disk, flight, nunits, patch, cls, partEnd, endDTS, durHdr>>
+\* the code forgets the failed part (formatFMP4Segment.write sets curPart = nil before it returns the
+\* error), so the close only patches the duration
+ErrorClose(lifted) ==
+    /\ ~crashed /\ pc = "failed"
+    /\ disk' = IF ~DevRewritesFailedPart THEN disk
+               ELSE IF lifted THEN disk \o UnitCells(nunits)
+               ELSE disk \o <<Cell(nunits, 1, "torn")>>
+    /\ patch' = 4 /\ durHdr' = endDTS /\ pc' = "closed"
+    /\ after' = IF lifted THEN "close_lifted" ELSE "close_limited"
+    /\ UNCHANGED <<flight, nunits, crashed, cls, partEnd, endDTS>>
 
 Next ==
+    \/ \E t \in BOOLEAN : FailWrite(t)
+    \/ FaultExit \/ \E li \in BOOLEAN : ErrorClose(li)
     \/ StartUnit \/ WriteCell \/ FinishUnit \/ PatchDuration \/ Close
     \/ \E m \in Modes, t \in BOOLEAN : CrashWriting(m, t)
     \/ \E m \in Modes : CrashIdle(m)
@@ -141,11 +171,14 @@ Served(d) == IF HeaderOK(d) THEN 1..(CompleteUnits(d) - 1) ELSE {}
 \* ---------------------------------------------------------------- layer 2: the statement
 \* "each segment on disk is a valid header followed by complete parts and at most one incomplete tail"
 \* (when the crash hits the header write, the incomplete tail is the header itself)
-Shape ==
-    crashed =>
-      LET c == CompleteUnits(disk) IN
-        /\ \A i \in 1..(4 * c) : disk[i].st = "ok" /\ disk[i].u = (i - 1) \div 4 /\ disk[i].z = ((i - 1) % 4) + 1
-        /\ \A i \in (4 * c + 1)..Len(disk) : disk[i].u = c
+ShapeOf(d) ==
+      LET c == CompleteUnits(d) IN
+        /\ \A i \in 1..(4 * c) : d[i].st = "ok" /\ d[i].u = (i - 1) \div 4 /\ d[i].z = ((i - 1) % 4) + 1
+        /\ \A i \in (4 * c + 1)..Len(d) : d[i].u = c
+Shape == crashed => ShapeOf(disk)
+\* the same after a write fault that the recorder survived: the incomplete piece is the TAIL of the
+\* file it closed, nothing follows it
+ShapeAfterFault == (pc \in {"failed", "closed"} /\ after # "exit") => ShapeOf(disk)
 \* "playback serves every complete part": exactly the parts whose write had completed
 ServesComplete == crashed => Served(disk) = 1..(nunits - 1)
 \* "the media lost is bounded by the last part": whatever had been handed to the disk and is not
@@ -161,9 +194,9 @@ TrueDurationRecorded ==
     (~crashed /\ pc \in {"patched", "closed"}) =>
         durHdr = SetMaxOf({ partEnd[i] : i \in 1..Len(partEnd) })
 \* the duration is final only once the whole field has been rewritten after the last part
-PatchAfterParts == (patch > 0) => (flight = <<>> /\ nunits >= 2)
+PatchAfterParts == (patch > 0) => (flight = <<>> /\ (nunits >= 2 \/ after # "none"))
 TypeOK ==
-    /\ pc \in {"new", "writing", "idle", "patched", "closed"}
+    /\ pc \in {"new", "writing", "idle", "patched", "closed", "failed"}
     /\ nunits \in 0..(MaxParts + 1) /\ patch \in 0..4 /\ crashed \in BOOLEAN
 
 \* ---------------------------------------------------------------- generator: the crash classes
@@ -178,7 +211,11 @@ TypeOK ==
 ClassOf == [k |-> cls.k, z |-> cls.z, zone |-> IF cls.z = 0 THEN "-" ELSE ZoneName(cls.k, cls.z),
             torn |-> cls.torn, mode |-> cls.mode, stage |-> cls.stage, patch |-> patch,
             hdr |-> HeaderOK(disk), parts |-> Cardinality(Served(disk))]
-EmitClasses == crashed => Emit("CLASS", ClassOf)
+EmitClasses == (crashed /\ cls.stage # "fault") => Emit("CLASS", ClassOf)
+\* generator: the write faults (part k, zone reached, torn?, what follows)
+EmitFaults ==
+    (after # "none") => Emit("FAULT", [k |-> cls.k, z |-> cls.z, zone |-> ZoneName(cls.k, cls.z),
+                                      torn |-> cls.torn, after |-> after])
 
 \* ---------------------------------------------------------------- what the statement requires, per class
 \* (used by TraceRecFile: recomputed from the class, never copied from the harness)
